@@ -14,4 +14,7 @@ PROPS = {
              harness_modes=['rlib'], extra=['extra_autotraits'],
              trusted=['the auto-trait rules (AutoTraits.auto) are a model of rustc, validated against rustc for every table cell on every run', 'parametricity of auto traits in the pointee type'],
              assumptions=['all other type parameters (closures, accesses) are instantiated with Send + Sync types']),
+ 'C20': dict(module='ArcSwapModel.Props.C20', harness_modes=['serde'], extra=['extra_serde'],
+             trusted=['the serde framework (that real Serializers see what SerdeM.ser describes) and serde\'s rc feature (a pointer serializes as its target)'],
+             assumptions=['Serialize goes through load(), which for the serializing thread returns the current value (C03)']),
 }
